@@ -1018,6 +1018,9 @@ def tune_centroid(
         if peak_position is not None:
             # improvement: report final peak_position
             # print("final position = {}".format(peak_position))
+            # The centroid of a non-negative signal lies within the scanned range, but its floating
+            # point evaluation can land one rounding step outside when the signal sits on the boundary.
+            peak_position = min(max(peak_position, low_limit), high_limit)
             yield from bps.mv(motor, peak_position)  # type: ignore      # Movable
 
     return (yield from _tune_core(start, stop, num, signal))
